@@ -42,6 +42,10 @@ def strat():
     def case(draw):
         n_lines = draw(st.integers(1, 4)) if draw(st.integers(0, 11)) else draw(st.integers(20, 45))
         n_eng = draw(st.integers(1, 4))
+        # one page in eight carries full text lines (64-110 characters, 130-220 trellis states in the alignment)
+        long_text = draw(st.integers(0, 7)) == 0
+        if long_text:
+            n_lines = min(n_lines, 2)
         geoms = []
         y = 50
         for _ in range(n_lines):
@@ -55,6 +59,11 @@ def strat():
             for li in range(n_lines):
                 mode = draw(st.sampled_from(["match", "match", "mismatch", "short", "empty", "none", "share"]))
                 text = "".join(draw(st.lists(st.sampled_from(table), min_size=1, max_size=7)))
+                if long_text:
+                    reps = draw(st.integers(10, 16))
+                    text = (text * reps)[:draw(st.integers(64, 110))]
+                    if len(text) < 64:
+                        text = (text * 64)[:64]
                 lines.append(dict(mode=mode, text=text, seed=draw(st.integers(0, 2 ** 31 - 1)),
                                   confuse=draw(st.sampled_from([0.0, 0.4, 0.9])),
                                   peak=draw(st.sampled_from([(6.0, 14.0), (0.5, 2.0)])),
@@ -179,6 +188,14 @@ def body(ctx, case):
         info = lambda: "line %d: got transcription %r conf %r; expected winner %r transcription %r conf %r; " % (
             li, line.transcription, line.transcription_confidence, ex["winner"], ex["t"], ex["conf"]) + desc()
         ctx.check(line.transcription == ex["t"], "merged_transcription_not_of_most_confident_engine", info)
+        # independent of the library's own confidence: an engine whose logits were built around its transcription with
+        # strong peaks and no competitor has every character confidence close to 1, so the merged line must be that confident
+        clean = [e for e, eng in enumerate(case["engines"]) if eng["lines"][li]["mode"] == "match" and eng["lines"][li]["confuse"] == 0.0
+                 and tuple(eng["lines"][li]["peak"]) == (6.0, 14.0)]
+        if clean:
+            ctx.check(line.transcription_confidence is not None and line.transcription_confidence >= 0.99, "clean_engine_result_not_recognised_as_confident",
+                      lambda: "engines %r carry a clean result for this line; " % (clean,) + info())
+            ctx.event("clean_engine_line" + ("_of_64+_characters" if len(case["engines"][clean[0]]["lines"][li]["text"]) >= 64 else ""))
         ctx.check(line.logits is ex["logits"], "merged_logits_not_of_winning_engine", info)
         ctx.check(line.characters is ex["chars"], "merged_characters_not_of_winning_engine", info)
         if ex["winner"] is not None:
